@@ -998,7 +998,14 @@ def create_timepoints(base_priors, n_points=21):
 
 
 def fill_priors(
-    node_parameters, timepoints, ts, population_size, *, prior_distr, progress=False
+    node_parameters,
+    timepoints,
+    ts,
+    population_size,
+    *,
+    prior_distr,
+    progress=False,
+    natural_timepoints=None,
 ):
     """
     Take the alpha and beta values from the node_parameters array, which contains
@@ -1028,11 +1035,14 @@ def fill_priors(
     datable_nodes[ts.samples()] = False
     datable_nodes = np.where(datable_nodes)[0]
 
-    # convert timepoints to generational timescale
+    # convert timepoints to generational timescale (unless these are already
+    # known, e.g. user-specified, in which case use them exactly as given)
+    if natural_timepoints is None:
+        natural_timepoints = population_size.to_natural_timescale(timepoints)
     prior_times = node_time_class.NodeTimeValues(
         ts.num_nodes,
         datable_nodes[np.argsort(ts.nodes_time[datable_nodes])].astype(np.int32),
-        population_size.to_natural_timescale(timepoints),
+        natural_timepoints,
     )
 
     # TO DO - this can probably be done in an single numpy step rather than a for loop
@@ -1111,6 +1121,7 @@ class MixturePrior:
         elif isinstance(population_size, (int, float, np.ndarray)):
             population_size = demography.PopulationSizeHistory(population_size)
 
+        natural_timepoints = None
         if isinstance(timepoints, int):
             if timepoints < 2:
                 raise ValueError("You must have at least 2 time points")
@@ -1131,7 +1142,10 @@ class MixturePrior:
             elif np.any(np.unique(timepoints, return_counts=True)[1] > 1):
                 raise ValueError("Timepoints cannot have duplicate values")
             # timepoints are assumed to be on generational scale, so convert to
-            # coalescent timescale to evaluate prior
+            # coalescent timescale to evaluate prior. Keep the generational values
+            # so that the returned grid is exactly the one asked for, rather than
+            # a floating-point round trip through the coalescent timescale
+            natural_timepoints = timepoints.copy()
             timepoints = population_size.to_coalescent_timescale(timepoints)
         else:
             raise ValueError("time_slices must be an integer or a numpy array of floats")
@@ -1144,6 +1158,7 @@ class MixturePrior:
             population_size,
             prior_distr=self.prior_distribution,
             progress=progress,
+            natural_timepoints=natural_timepoints,
         )
         return priors
 
